@@ -24,6 +24,8 @@ mod c11;
 mod c14;
 mod c15;
 mod c16;
+mod c17;
+mod c18;
 mod c19;
 
 use report::{machinery, Report, Tier};
@@ -81,6 +83,8 @@ fn main() {
         "C14" => c14::run(&ctx, &mut rep),
         "C15" => c15::run(&ctx, &mut rep),
         "C16" => c16::run(&ctx, &mut rep),
+        "C17" => c17::run(&ctx, &mut rep),
+        "C18" => c18::run(&ctx, &mut rep),
         "C19" => c19::run(&ctx, &mut rep),
         _ => machinery(&format!("no check registered for {id}")),
     }
